@@ -156,21 +156,154 @@ fn run_compute(p: &Prog) -> String {
     let mut prog = AirProgram { functions: vec![], structs, globals: vec![], source_files: vec![], mono_instances: vec![] };
     let r = guarded(std::panic::AssertUnwindSafe(|| { compute_layouts(&mut prog); }));
     match r {
-        Ok(()) => {
-            let ss: Vec<String> = prog.structs.iter().map(|s| {
-                if s.fields.iter().any(|f| f.offset.is_none()) { "None".to_string() } else {
-                    let o: Vec<String> = s.fields.iter().map(|f| f.offset.unwrap().to_string()).collect();
-                    format!("Some [{}]", o.join("; "))
-                }
-            }).collect();
-            format!("OLaid [{}]", ss.join("; "))
-        }
+        Ok(()) => laid_obs(&prog),
         Err(m) => {
             // "diagnosed rather than laid out": a rejected program must not carry any offset
             if prog.structs.iter().any(|s| s.fields.iter().any(|f| f.offset.is_some())) { return "ODirty".to_string(); }
             let k = NEEDLES.with(|n| n.borrow().iter().find(|(_, f)| m.contains(f.as_str())).map(|(k, _)| k.clone())).unwrap_or_default();
             DIAG_DETAIL.with(|d| *d.borrow_mut() = if k == "ODiagSelf" || m.contains("has infinite size") { "selfref" } else if k == "ODiagCycle" || m.contains("recursive struct cycle") { "cycle" } else { "" });
             classify_panic(&m).to_string()
+        }
+    }
+}
+
+/// offsets as stored in the program + the `[size=, align=]` the toolchain prints for each struct
+/// (print::print_program recomputes them: it is the only place where size and alignment are reported)
+fn laid_obs(prog: &AirProgram) -> String {
+    let ss: Vec<String> = prog.structs.iter().map(|s| {
+        if s.fields.iter().any(|f| f.offset.is_none()) { "None".to_string() } else {
+            let o: Vec<String> = s.fields.iter().map(|f| f.offset.unwrap().to_string()).collect();
+            format!("Some [{}]", o.join("; "))
+        }
+    }).collect();
+    let printed = match guarded(std::panic::AssertUnwindSafe(|| aelys_air::print::print_program(prog))) {
+        Ok(t) => t,
+        Err(_) => return "OPrintPanic".to_string(),
+    };
+    let mut sa: Vec<String> = Vec::new();
+    for line in printed.lines() {
+        let l = line.trim();
+        if let Some(rest) = l.strip_prefix("[size=") {
+            if let Some((sz, rest)) = rest.split_once(", align=") {
+                if let (Ok(a), Ok(b)) = (sz.parse::<u64>(), rest.trim_end_matches(']').parse::<u64>()) { sa.push(format!("Some ({}, {})", a, b)); }
+            }
+        }
+    }
+    if sa.len() != prog.structs.len() { return "OOther".to_string(); }
+    format!("OLaid [{}] [{}]", ss.join("; "), sa.join("; "))
+}
+
+// ---- the source-text path of `aelys compile --emit-air`: lexer, parser, sema, lower, layout, print
+fn src_ty(t: &T) -> Option<(String, String)> {
+    // (type as written in source, type as the AIR printer shows it)
+    Some(match t {
+        T::P("I8") => ("i8".into(), "i8".into()), T::P("I16") => ("i16".into(), "i16".into()), T::P("I32") => ("i32".into(), "i32".into()),
+        T::P("I64") => ("int".into(), "i64".into()), T::P("U8") => ("u8".into(), "u8".into()), T::P("U16") => ("u16".into(), "u16".into()),
+        T::P("U32") => ("u32".into(), "u32".into()), T::P("U64") => ("u64".into(), "u64".into()), T::P("F32") => ("f32".into(), "f32".into()),
+        T::P("F64") => ("float".into(), "f64".into()), T::P("Bool") => ("bool".into(), "bool".into()), T::P("Str") => ("string".into(), "str".into()),
+        T::Slice(i) => { let (a, b) = src_ty(i)?; (format!("array<{}>", a), format!("[{}]", b)) }
+        T::Struct(n) => (format!("S{n}"), format!("S{n}")),
+        _ => return None,
+    })
+}
+fn to_source(p: &Prog) -> Option<(String, Vec<Vec<String>>)> {
+    let mut src = String::new();
+    let mut shown = Vec::new();
+    for (n, fs) in p {
+        let mut fl = Vec::new();
+        let mut sh = Vec::new();
+        for (i, t) in fs.iter().enumerate() { let (a, b) = src_ty(t)?; fl.push(format!("f{}: {}", i, a)); sh.push(b); }
+        src.push_str(&format!("struct S{} {{ {} }}\n", n, fl.join(", ")));
+        shown.push(sh);
+    }
+    src.push_str("1\n");
+    Some((src, shown))
+}
+fn run_source(src: &str, shown: &[Vec<String>]) -> String {
+    use aelys_frontend::lexer::Lexer;
+    use aelys_frontend::parser::Parser;
+    let source = aelys_syntax::Source::new("<verif>", src);
+    let r = guarded(std::panic::AssertUnwindSafe(|| -> Result<AirProgram, String> {
+        let tokens = Lexer::with_source(source.clone()).scan().map_err(|e| format!("lex: {e}"))?;
+        let ast = Parser::new(tokens, source.clone()).parse().map_err(|e| format!("parse: {e}"))?;
+        let typed = aelys_sema::TypeInference::infer_program(ast, source.clone()).map_err(|es| format!("sema: {}", es.len()))?;
+        let mut air = aelys_air::lower::lower(&typed);
+        compute_layouts(&mut air);
+        Ok(air)
+    }));
+    match r {
+        Ok(Ok(air)) => {
+            let user: Vec<&AirStructDef> = air.structs.iter().filter(|s| !s.is_closure_env).collect();
+            if user.len() != shown.len() { return "OTypeMismatch".into(); }
+            for (s, sh) in user.iter().zip(shown) {
+                let got: Vec<String> = s.fields.iter().map(|f| aelys_air::print::fmt_type(&f.ty)).collect();
+                if &got != sh { return "OTypeMismatch".into(); }
+            }
+            laid_obs(&air)
+        }
+        Ok(Err(e)) => { DIAG_DETAIL.with(|d| *d.borrow_mut() = "frontend"); let _ = e; "OOther".into() }
+        Err(m) => {
+            let k = NEEDLES.with(|n| n.borrow().iter().find(|(_, f)| m.contains(f.as_str())).map(|(k, _)| k.clone())).unwrap_or_default();
+            DIAG_DETAIL.with(|d| *d.borrow_mut() = if k == "ODiagSelf" || m.contains("has infinite size") { "selfref" } else if k == "ODiagCycle" || m.contains("recursive struct cycle") { "cycle" } else { "" });
+            classify_panic(&m).to_string()
+        }
+    }
+}
+fn emit_src(p: &Prog, class: &str) {
+    if let Some((src, shown)) = to_source(p) {
+        DIAG_DETAIL.with(|d| *d.borrow_mut() = "");
+        let o = run_source(&src, &shown);
+        let detail = DIAG_DETAIL.with(|d| *d.borrow());
+        println!("QCompute {}\t{}\t{}\t{}\t{}", coq_prog(p), o, compact_prog(p), class, detail);
+    }
+}
+fn gen_src_ty(rng: &mut Rng, lower: &[u64], all: &[u64]) -> T {
+    let k = rng.below(100);
+    if k < 35 && !lower.is_empty() { T::Struct(*rng.pick(lower)) }
+    else if k < 45 { let inner = if !all.is_empty() && rng.chance(1, 2) { T::Struct(*rng.pick(all)) } else { T::P(*rng.pick(&SCALARS)) }; T::Slice(Box::new(inner)) }
+    else if k < 52 { T::P("Str") }
+    else { T::P(*rng.pick(&SCALARS)) }
+}
+/// struct declarations as source text: every declaration order (embedding a struct declared later is
+/// the common case), self containment and by-value cycles, aggregates that are larger but less
+/// aligned than a sibling field
+fn source_stream(rng: &mut Rng, cases: u64) {
+    // fixed cases first
+    let fixed: Vec<(Prog, &str)> = vec![
+        (vec![(3, vec![T::P("I8"), T::Struct(2)]), (2, vec![T::P("I64"), T::Struct(1)]), (1, vec![T::P("F32"), T::P("F32"), T::P("F32")])], "src-wf"),
+        (vec![(1, vec![T::P("F32"), T::P("F32"), T::P("F32")]), (2, vec![T::P("I64"), T::Struct(1)]), (3, vec![T::P("I8"), T::Struct(2)])], "src-wf"),
+        (vec![(2, vec![T::Struct(1), T::P("U8")]), (1, vec![T::P("U8"), T::P("U8"), T::P("U8"), T::P("U8"), T::P("U8")])], "src-wf"),
+        (vec![(1, vec![T::P("I64"), T::Struct(1)])], "src-self"),
+        (vec![(1, vec![T::Struct(2)]), (2, vec![T::P("U8"), T::Struct(1)])], "src-cycle"),
+        (vec![(1, vec![T::Struct(2)]), (2, vec![T::Struct(3)]), (3, vec![T::P("F64"), T::Struct(1)])], "src-cycle"),
+    ];
+    for (p, c) in &fixed { emit_src(p, c); }
+    for _ in 0..cases {
+        let n = 1 + rng.below(8) as usize;
+        let mut names: Vec<u64> = (1..=n as u64).collect();
+        shuffle(rng, &mut names);
+        let mut p: Prog = Vec::new();
+        for i in 0..n {
+            let nf = 1 + rng.below(6) as usize;
+            let lower: Vec<u64> = names[..i].to_vec();
+            p.push((names[i], (0..nf).map(|_| gen_src_ty(rng, &lower, &names)).collect()));
+        }
+        match rng.below(10) {
+            0 | 1 => { // self containment
+                let a = rng.below(p.len() as u64) as usize; let nm = p[a].0;
+                insert_field(rng, &mut p[a].1, T::Struct(nm)); shuffle(rng, &mut p); emit_src(&p, "src-self");
+            }
+            2 | 3 => { // by-value cycle
+                if p.len() < 2 { p.push((50, vec![T::P("U8")])); }
+                let len = 2 + rng.below((p.len() as u64 - 1).min(3)) as usize;
+                let mut idx: Vec<usize> = (0..p.len()).collect(); shuffle(rng, &mut idx);
+                for w in 0..len { let to = p[idx[(w + 1) % len]].0; insert_field(rng, &mut p[idx[w]].1, T::Struct(to)); }
+                shuffle(rng, &mut p); emit_src(&p, "src-cycle");
+            }
+            _ => {
+                match rng.below(3) { 0 => {}, 1 => p.reverse(), _ => shuffle(rng, &mut p) }
+                emit_src(&p, "src-wf");
+            }
         }
     }
 }
@@ -376,6 +509,8 @@ fn main() {
         let o = match guarded(|| layout_of(&to_air(&t))) { Ok(l) => format!("OSizeAlign {} {}", l.size, l.align), Err(m) => classify_panic(&m).to_string() };
         println!("QLayoutOf ({})\t{}\tT:{}\tlayout_of", coq_ty(&t), o, compact_ty(&t));
     }
+
+    if arg("--corpus").is_none() { source_stream(&mut rng, cases / 2); }
 
     for _ in 0..cases {
         let base = gen_wf(&mut rng);
